@@ -24,7 +24,8 @@ EXPLANATION = (
     "#[pymodule] registrations; comments and string literals are blanked first; anything unrecognised is an analysis error). "
     "R22.4 COVER every call of a class or function defined in dask_array/_frisky (code the baseline suite never executes) matches the callee's Python signature. R22.1 COVER every call `_rust.<Name>(...)` / `_rust.<Class>.<staticmethod>(...)` in the package names a class or function "
     "that the module registers, and passes a number of positional arguments and a set of keywords that its Rust signature "
-    "accepts; R22.2 COVER every registered layer class defines the methods the generic translator calls unconditionally on "
+    "accepts, and (R22.5) wherever the kind of an argument is visible in its spelling - a literal, int(...), list(...), an f-string - it is a kind pyo3 "
+    "can extract into the parameter's Rust type (a str for a Vec, a list for a String, None for a non-Option are TypeErrors); R22.2 COVER every registered layer class defines the methods the generic translator calls unconditionally on "
     "`self._rust` (read from dask_array/_frisky/base.py: to_dask_graph, to_task_records), and every class a wrapper builds in "
     "__init__ is stored in `self._rust`; R22.3 COVER every registered layer class has a Python wrapper that constructs it "
     "(an unreachable Rust layer is dead code, reported as a note, not a finding) and the wrapper's class is a subclass of the "
@@ -32,7 +33,7 @@ EXPLANATION = (
     "judged: a mismatch makes the import fail, which the walk treats as a decline, i.e. the property holds."
 )
 ASSUMPTIONS = [
-    "pyo3 maps a Rust fn's parameters to Python parameters in order, `Python<'_>` tokens and receivers excluded, `Option<T>` optional only through an explicit signature default (as the crate is written)",
+    "pyo3 (0.29 as pinned in Cargo.toml) maps a Rust fn's parameters to Python parameters in order, `Python<'_>` tokens and receivers excluded; a parameter - `Option<T>` included - is optional only through an explicit #[pyo3(signature)] default",
     "the crate is built from the sources analysed (the build-generation guard of dask_array/_frisky/base.py)",
 ]
 TRUSTED = ["CPython ast", "sa.rustiface (pyo3-subset reader: brace matching after blanking comments/strings)"]
@@ -88,6 +89,44 @@ def _check_call(ctx, rr, f, call, target, c, what):
     if missing:
         ctx.finding(rr, c, f"{what} is called without {missing}, which the Rust side ({target.file}:{target.line}) requires: with the extension built this call raises TypeError", func=f, node=call)
     del nreq
+
+
+def _py_kind(e):
+    """Syntactic kind of a Python argument expression, or None when it cannot be told from the spelling."""
+    if isinstance(e, ast.Constant):
+        v = e.value
+        return "none" if v is None else "bool" if isinstance(v, bool) else "int" if isinstance(v, int) else "float" if isinstance(v, float) else "str" if isinstance(v, str) else None
+    if isinstance(e, ast.JoinedStr):
+        return "str"
+    if isinstance(e, (ast.List, ast.Tuple, ast.ListComp, ast.GeneratorExp)):
+        return "seq"
+    if isinstance(e, (ast.Dict, ast.DictComp)):
+        return "dict"
+    if isinstance(e, ast.Call) and isinstance(e.func, ast.Name):
+        return {"int": "int", "float": "float", "bool": "bool", "str": "str", "list": "seq", "tuple": "seq", "sorted": "seq", "dict": "dict", "len": "int"}.get(e.func.id)
+    return None
+
+
+def r22_5(ctx):
+    rr = RuleResult("R22.5", "COVER", "where an argument's kind is visible in its spelling (a literal, int(...), list(...), an f-string, ...) it is a kind pyo3 can extract into the Rust parameter's type", min_instances=30)
+    ri = _iface(ctx)
+    for f, call, name, static in _rust_calls(ctx):
+        target, _rc = ri.callable_for(name)
+        if static is not None:
+            rcls = ri.classes.get(name)
+            target = rcls.methods.get(static) if rcls else None
+        if target is None or any(isinstance(a, ast.Starred) for a in call.args):
+            continue
+        pairs = list(zip(target.positional, call.args)) + [(p, k.value) for k in call.keywords for p in target.params if p.name == k.arg]
+        for p, a in pairs:
+            kind, acc = _py_kind(a), p.accepts
+            if kind is None or acc is None:
+                continue
+            c = f"{f.construct}::_rust.{name}{'.' + static if static else ''}(...)::{p.name}"
+            rr.inst(c, python_kind=kind, rust_type=p.rust_type)
+            if kind not in acc:
+                ctx.finding(rr, c, f"{unparse(a)[:60]} (a {kind}) is passed for `{p.name}: {p.rust_type}`: pyo3 cannot extract it, so the constructor raises TypeError wherever the extension is built", func=f, node=call)
+    return rr
 
 
 def r22_1(ctx):
@@ -250,7 +289,7 @@ def r22_4(ctx):
     return rr
 
 
-RULES = [r22_1, r22_2, r22_3, r22_4]
+RULES = [r22_1, r22_2, r22_3, r22_4, r22_5]
 
 LEVEL_TEXT = (
     "Static decision of one structural clause of C22: the interface between the Python wrappers (dask_array/_frisky) and the Rust "
